@@ -336,6 +336,12 @@ def one_case(sh, fa, rng, case, dtn, det_log):
         if bad:
             sh.violation("wrong-tag", "%s: %s" % (mode, bad), info)
             return
+        if mode == "named_override" and not has_logical:
+            # documented: a tag only where the union has more than one named type
+            want_o = expected_tagged(node, tree, "named_override", None)
+            if not RC.same(v, want_o):
+                sh.violation("override-tagging-wrong", "return_named_type_override gave %s, expected %s" % (printable(v, 250), printable(want_o, 250)), info)
+                return
         sh.count("tags_checked")
         st, back = guard(write_bytes, fa, schema_arg, v, False)
         if st == "ok" and back == data:
